@@ -84,14 +84,18 @@ def alphabet(noreplies=(None, True, False)):
     return ops
 
 
-def preload(net):
-    """Initial contents of every server: a numeric item and a text item."""
+def preload_one(srv):
     from vmc.strictparse import parse_all
 
+    items, _ = parse_all(b"set a 0 0 1\r\n5\r\nset b 5 0 1\r\nx\r\n")
+    for it in items:
+        srv.execute(it)
+
+
+def preload(net):
+    """Initial contents of every server: a numeric item and a text item."""
     for srv in net.servers.values():
-        items, _ = parse_all(b"set a 0 0 1\r\n5\r\nset b 5 0 1\r\nx\r\n")
-        for it in items:
-            srv.execute(it)
+        preload_one(srv)
 
 
 class Unknown:
